@@ -9,6 +9,14 @@
     whose future is gone is never closed (H12), nor is one whose [close()] future is dropped
     before its first submission (H19). Both classes are named predicates with witnesses; the
     theorem is proved for everything outside them.
+
+    "Of the requested kind" has one exception that the code documents (src/pipe.rs) and the
+    model states openly: on a kernel that refuses IORING_OP_PIPE with EINVAL (Linux < 6.16) the
+    pipe is made with pipe2(2) and both ends come back as REGULAR descriptors, also when direct
+    ones were asked for ([C07_pipe_fallback_wraps_regular]). They are correctly labelled, so they
+    are owned and closed exactly once like every other regular descriptor — the event that stands
+    for the refusal is part of the alphabet all theorems below quantify over. Labelling them
+    with the requested kind instead is refuted ([C07_pipe_fallback_requested_kind_refuted]).
     Property theorems only; model in Model/FdTable.v, proofs in Proofs/FdTableProofs.v. *)
 From A10 Require Import Base.Word Base.Run Model.FdTable Proofs.FdTableProofs.
 From Coq Require Import Permutation.
@@ -25,6 +33,20 @@ Proof. exact close_encoding_holds. Qed.
 (** Every reachable state, all histories. *)
 Theorem C07_descriptor_closed_exactly_once : descriptor_closed_exactly_once.
 Proof. exact descriptor_closed_exactly_once_holds. Qed.
+
+(** The pipe2(2) fallback: two new process descriptors, wrapped as regular, for both requested
+    kinds; reachable for both. *)
+Theorem C07_pipe_fallback_wraps_regular : pipe_fallback_wraps_regular.
+Proof. exact pipe_fallback_wraps_regular_holds. Qed.
+
+(** pipe2(2) is called from the poll of a live future only: never for an abandoned pipe. *)
+Theorem C07_pipe_fallback_only_in_poll : pipe_fallback_only_in_poll.
+Proof. exact pipe_fallback_only_in_poll_holds. Qed.
+
+(** Wrapping the fallback's descriptors with the requested kind: another owner's direct slot
+    is closed, two closes hit nothing, two process descriptors leak. *)
+Theorem C07_pipe_fallback_requested_kind_refuted : pipe_fallback_requested_kind_refuted_stmt.
+Proof. exact pipe_fallback_requested_kind_refuted. Qed.
 
 (** H12: delivered to an operation whose future was dropped while it was in flight. *)
 Theorem C07_delivered_to_abandoned_op_refuted :
@@ -79,6 +101,47 @@ Check (C07_descriptor_closed_exactly_once :
     /\ (quiescent s = true ->
         (forall d, ~ delivered_to_abandoned_op s d) -> (forall d, ~ close_future_never_started s d) ->
         kopen s = [] /\ Permutation (issued s) (closed s))).
+Check C07_pipe_fallback_wraps_regular : pipe_fallback_wraps_regular.
+Check (C07_pipe_fallback_wraps_regular :
+  (forall cap0 nslots0 es i o fd fd2 rest,
+     let s := reach cap0 nslots0 es in
+     nth_error (ops s) i = Some o -> o_st o = ODone -> o_res o = (RInval [fd; fd2], false) :: rest ->
+     all_fresh s [(fd, Regular); (fd2, Regular)] = true ->
+     let s' := fst (step_with (fun _ => Regular) s (PollOp i)) in
+     kopen s' = kopen s ++ [(fd, Regular); (fd2, Regular)]
+     /\ issued s' = issued s ++ [(fd, Regular); (fd2, Regular)]
+     /\ handles s' = handles s ++ [wrap fd Regular; wrap fd2 Regular]
+     /\ owned s' = owned s ++ [(fd, Regular); (fd2, Regular)]
+     /\ snd (step_with (fun _ => Regular) s (PollOp i)) = [11; 0; nz fd; 11; 0; nz fd2]%Z
+     /\ kind_of (h_word (wrap fd Regular)) = Regular /\ fd_of (h_word (wrap fd Regular)) = fd
+     /\ kind_of (h_word (wrap fd2 Regular)) = Regular /\ fd_of (h_word (wrap fd2 Regular)) = fd2)
+  /\ (forall k, exists cap0 nslots0 es i o fd fd2,
+        let s := reach cap0 nslots0 es in
+        nth_error (ops s) i = Some o /\ o_cop o = CPipe k /\ o_kind o = k /\ o_st o = ODone
+        /\ o_res o = [(RInval [fd; fd2], false)]
+        /\ all_fresh s [(fd, Regular); (fd2, Regular)] = true)).
+Check (C07_pipe_fallback_only_in_poll :
+  forall s i,
+    (forall fd fd2, frame s (kpipe_inval s i fd fd2))
+    /\ frame s (fst (process_all s))
+    /\ frame s (drop_op s i)
+    /\ (forall o fd fd2, snd (fst (update1 o (RInval [fd; fd2], false))) = [])
+    /\ (forall o, nth_error (ops s) i = Some o -> fut_alive o = false -> step s (PollOp i) = (s, []))).
+Check (C07_pipe_fallback_requested_kind_refuted :
+  exists cap0 nslots0 es,
+    let s := fst (run (step_with (fun k => k)) (init cap0 nslots0) es) in
+    quiescent s = true /\ leak12 s = [] /\ leak19 s = []
+    /\ kopen s = [(5, Regular); (6, Regular)] /\ owners s = []
+    /\ nth_error (handles s) 0 = Some {| h_word := mk_word 5 Direct; h_std := false; h_live := false |}
+    /\ nth_error (handles s) 1 = Some {| h_word := mk_word 5 Direct; h_std := false; h_live := false |}
+    /\ closed s = [(5, Direct)]
+    /\ bad s = [(6, Direct); (5, Direct)]
+    /\ (let s0 := reach cap0 nslots0 es in
+        quiescent s0 = true /\ bad s0 = [] /\ kopen s0 = []
+        /\ closed s0 = [(5, Regular); (6, Regular); (5, Direct)])).
+(* [reach] runs [step], the code as it is, over the full event alphabet (KPipeInval included). *)
+Check (eq_refl : reach = fun cap0 nslots0 es => fst (run (step_with pipe_fallback_kind) (init cap0 nslots0) es)).
+Check (eq_refl : pipe_fallback_kind = fun _ => Regular).
 Print Assumptions C07_fd_word_roundtrip.
 Print Assumptions C07_close_encoding.
 Print Assumptions C07_descriptor_closed_exactly_once.
@@ -86,3 +149,6 @@ Print Assumptions C07_delivered_to_abandoned_op_refuted.
 Print Assumptions C07_delivered_to_finished_unpolled_op_refuted.
 Print Assumptions C07_close_future_never_started_refuted.
 Print Assumptions C07_all_closed_at_rest_refuted.
+Print Assumptions C07_pipe_fallback_wraps_regular.
+Print Assumptions C07_pipe_fallback_only_in_poll.
+Print Assumptions C07_pipe_fallback_requested_kind_refuted.
